@@ -8,7 +8,7 @@
 (* _onBounds calls, the return of parse).  Each model step must emit       *)
 (* exactly the next recorded events.  One verdict line per run.            *)
 (***************************************************************************)
-EXTENDS ParserRT, TLC
+EXTENDS ParserRT, TLC, Json
 
 VARIABLES rid, l, conf
 tvars == <<vars, rid, l, conf>>
@@ -21,11 +21,31 @@ TraceInit ==
   /\ w = Runs[rid].w /\ closed = TRUE
   /\ stack = <<>> /\ la = -1 /\ lasym = NoV /\ qla = -1 /\ qlasym = NoV
   /\ pos = 0 /\ pc = "start"
-  /\ errsym = NoV /\ save = <<>> /\ rstate = 0 /\ nid = 0 /\ rec = FALSE /\ out = <<>>
+  /\ errsym = NoV /\ save = <<>> /\ rstate = 0 /\ nid = 0 /\ rec = FALSE /\ lost = {} /\ out = <<>>
   /\ l = 1 /\ conf = "run"
 
+Ds == [c \in 1..Len(Cases) |-> DocDesugar(Cases[c].g)]
+
+\* input tokens in order, stretches possibly replaced by @error (C09, last clause)
+RECURSIVE Consumes(_, _, _, _, _)
+Consumes(y, k, ww, c, gap) ==
+  IF k > Len(y) THEN c = Len(ww) \/ gap
+  ELSE IF y[k][1] = "x" THEN Consumes(y, k + 1, ww, c, TRUE)
+  ELSE LET idx == y[k][2] IN
+       /\ idx < Len(ww) /\ ww[idx + 1] = y[k][3]
+       /\ (idx = c \/ (idx > c /\ gap))
+       /\ Consumes(y, k + 1, ww, idx + 1, FALSE)
+
+\* at accept: the symbols on the stack (what the parse consumed) form a sentence of G_E
+ConsumedOk ==
+  IF pc # "accept" THEN TRUE
+  ELSE LET y == YieldOf(stack) IN
+       /\ InLang(Ds[cid], [k \in DOMAIN y |-> y[k][3]])
+       /\ Consumes(y, 1, w, 0, FALSE)
+
 Verdict(kind, extra) ==
-  PrintT(ToJson([tv |-> kind, r |-> rid - 1, c |-> cid - 1, l |-> l, pc |-> pc, x |-> extra]))
+  PrintT(ToJson([tv |-> kind, r |-> rid - 1, c |-> cid - 1, l |-> l, pc |-> pc, x |-> extra,
+                 lost |-> lost, consumed |-> IF kind = "ok" THEN ConsumedOk ELSE TRUE]))
 
 TraceStep ==
   /\ conf = "run" /\ pc \notin Final
